@@ -31,7 +31,7 @@ struct Opt {
   // input: 0 none, 1 data+size>0, 2 data+size 0, 3 NULL data with size>0
   int input = 0;
   // fork/argv: 0 (fork=0, valid argv), 1 (fork=0, argv NULL), 2 (fork=0, argv={NULL}),
-  //            3 (fork=1, argv NULL), 4 (fork=1, valid argv)
+  //            3 (fork=1, argv NULL), 4 (fork=1, valid argv), 5 (fork=1, argv={NULL})
   int forkargv = 0;
 };
 
@@ -158,7 +158,7 @@ inline Spec spec(const Opt &o)
   if (o.input == 3) invalid("input size without data");
   // fork / argv
   if (o.forkargv == 1 || o.forkargv == 2) invalid("no fork mode and no program");
-  if (o.forkargv == 4) invalid("fork mode with an argv");
+  if (o.forkargv == 4 || o.forkargv == 5) invalid("fork mode with an argv");
   return sp;
 }
 
